@@ -72,6 +72,33 @@ theorem c16_disjoint (o1 o2 : Op) (m : Msg) (hg1 : o1.kind = .read ∨ o1.kind =
       · simp [hc] at c2
     · simp [hc] at c1
 
+/-! ## notify data -/
+
+/-- **C16 (notify data).**  The data callback of a notify session for `(a, h)` receives exactly the data of the notify-data
+messages carrying address `a` and handle `h` that arrive while it is registered, in order — for every stream. -/
+theorem c16_notify_data (a h : Nat) (evs : List NEv) :
+    notifyRun a h true evs =
+      ((evs.takeWhile (· ≠ .remove)).filterMap fun e => match e with
+        | .data m => if m.address = a ∧ m.handle = h then some m.data else none
+        | .remove => none) := by
+  have hfalse : ∀ es, notifyRun a h false es = [] := by
+    intro es; induction es with
+    | nil => rfl
+    | cons e es ih => cases e <;> simp [notifyRun, ih]
+  induction evs with
+  | nil => rfl
+  | cons e es ih =>
+    cases e with
+    | remove => simp [notifyRun, hfalse]
+    | data m =>
+      simp only [notifyRun, true_and, ne_eq, reduceCtorEq, not_false_eq_true, List.takeWhile_cons_of_pos, List.filterMap_cons]
+      by_cases hm : m.address = a ∧ m.handle = h
+      · simp [hm, ih]
+      · simp [hm, ih]
+
+example : notifyRun 1 2 true [.data ⟨1, 2, 10⟩, .data ⟨1, 3, 11⟩, .data ⟨9, 2, 12⟩, .data ⟨1, 2, 13⟩, .remove, .data ⟨1, 2, 14⟩] = [10, 13] := by
+  decide
+
 /-! ## device connect -/
 
 /-- **C16 (connect timeout).**  For every event sequence: if the connect ends with the timeout error,
